@@ -145,6 +145,18 @@ def _effects_in(node):
                     mode = ast.unparse(n.args[1]) if len(n.args) > 1 else "'r'"
                     if 'w' not in mode and 'a' not in mode and '+' not in mode:
                         continue
+                if EFFECT_CALLS[c] == 'WriteDeferred':
+                    # write_gro(..., defer_writing=...): deferred only by default / with a literal True
+                    kw = [k for k in n.keywords if k.arg == 'defer_writing']
+                    pos = n.args[5] if len(n.args) > 5 else None
+                    val = kw[0].value if kw else pos
+                    if val is not None:
+                        if not isinstance(val, ast.Constant) or not isinstance(val.value, bool):
+                            raise TranslateError(f"line {n.lineno}: write_gro is called with defer_writing={ast.unparse(val)}: "
+                                                 "whether the write is deferred depends on run-time state")
+                        if val.value is False:
+                            out.append('OpenTruncate')
+                            continue
                 out.append(EFFECT_CALLS[c])
     return out
 
